@@ -1,4 +1,6 @@
 """C09 — config scopes nest, are restored on every exit path, and are private to a thread."""
+import contextvars
+import functools
 import itertools
 import random
 import threading
@@ -16,7 +18,12 @@ RULE = ('(seq) random trees of nested config_scope entries (identifier, a/b, lis
         'ValueError/TypeError/IndexError; dotted scope components; threads started by the running thread inside nested blocks; '
         'clear_config/parse_config/bind/query/config_str/unlock_config inside blocks; lists returned by current_scope() mutated; '
         'generators suspended inside a block and left by close()/throw()/exhaustion; scoped classes (get_configurable, reference) and their '
-        'registered methods called later under another scope. distinct = program shapes / schedule traces')
+        'registered methods called later under another scope. (extensions, threads) before every multi-thread run bindings holding '
+        'scoped references (evaluated, not evaluated, class) are parsed afresh and the threads make the first uses of those shared '
+        'reference objects, at the start or the end of their programs; every other multi-thread run executes each thread inside its own '
+        'copy of the main thread\'s context (contextvars.copy_context().run); sequential programs start a thread (plain or in a copied '
+        'context) that sits inside its own list scope while the starter enters and leaves blocks, both sides observing. '
+        'distinct = program shapes / schedule traces')
 TIERS = {
     'quick': {'workers': 8, 'cases': 400, 'timeout': 900, 'thread_cases': 6, 'random_runs': 20, 'pct_runs': 9, 'preempt_samples': 40,
               'free_runs': 5, 'exhaustive': False},
@@ -35,7 +42,11 @@ REQUIRED_BUCKETS = ['entry:ident', 'entry:slash', 'entry:list', 'entry:none', 'e
                     'exit:raise-ValueError', 'exit:raise-TypeError', 'exit:raise-IndexError', 'call:probe-raises-ValueError-in-scoped',
                     'entry:dotted', 'entry:invalid-dotted', 'gen:close', 'gen:throw', 'gen:exhaust', 'gen:suspended-in-nested-block',
                     'call:scoped-class', 'call:scoped-class-method-under-other-scope', 'call:unscoped-class-method',
-                    'call:scoped-method-raises']
+                    'call:scoped-method-raises',
+                    # extensions (seeded round 2): first uses of shared reference objects, threads in copied contexts
+                    'threads:first-use-of-shared-reference', 'threads:first-use:ref-call', 'threads:first-use:ref-fn',
+                    'threads:first-use:ref-class', 'threads:in-copied-context', 'threads:free-in-copied-context',
+                    'threads:overlapping-child', 'threads:overlapping-child-in-copied-context']
 ORACLE_COUNTERS = ['oracle_evals', 'scope_checks', 'thread_scope_checks']
 ASSUMPTIONS = ['interleaving granularity = LINE events inside gin/*.py']
 
@@ -47,10 +58,10 @@ KINDS = ['a', 'b', 'a/b', 'b/c/a', ['x'], ['x', 'y'], [], None, '', 'a b', 'a//b
 # classes (many LINE events): thread programs run them as a plain direct call
 OLD_CALLS = ['direct', 'scoped-get', 'scoped-ref', 'scoped-raise', 'scoped-get-raise', 'scoped-raise-base', 'scoped-get-raise-base',
              'deferred-entry', 'decorator-entry']
-NEW_CALLS = ['child-thread', 'child-thread', 'api-clear', 'api-misc', 'scoped-raise-value', 'scoped-get-raise-value', 'gen-close', 'gen-throw',
+NEW_CALLS = ['child-thread', 'child-thread', 'child-overlap', 'api-clear', 'api-misc', 'scoped-raise-value', 'scoped-get-raise-value', 'gen-close', 'gen-throw',
              'gen-exhaust', 'scoped-class', 'scoped-class', 'unscoped-class', 'scoped-method-raises']
-SEQ_ONLY = {'child-thread', 'api-clear', 'api-misc', 'scoped-class', 'unscoped-class', 'scoped-method-raises'}
-NEW_ONLY = {'child-thread', 'api-clear', 'api-misc', 'gen-close', 'gen-throw', 'gen-exhaust', 'scoped-class', 'unscoped-class',
+SEQ_ONLY = {'child-thread', 'child-overlap', 'api-clear', 'api-misc', 'scoped-class', 'unscoped-class', 'scoped-method-raises'}
+NEW_ONLY = {'child-thread', 'child-overlap', 'api-clear', 'api-misc', 'gen-close', 'gen-throw', 'gen-exhaust', 'scoped-class', 'unscoped-class',
             'scoped-method-raises'}      # dispatched to Runner.call_<first word>
 
 
@@ -161,6 +172,27 @@ b/c9cls.meth.v = 'meth-b'
 BOUND = {'': 'root', 'a': 'a', 'a/b': 'a/b', 'b': 'b', 'x': 'x', 'x/y': 'x/y', 't0': 't0', 't1': 't1', 't2': 't2', 't3': 't3'}
 CLS_BOUND = {'': 'cls-root', 'k1': 'cls-k1', 'a/b': 'cls-a/b', 'x': 'cls-x'}
 METH_BOUND = {'': 'meth-root', 'a': 'meth-a', 'k1/k2': 'meth-k1/k2', 'b': 'meth-b'}
+# Bindings whose values are scoped references, parsed again right before every multi-thread run: the reference objects are new, so
+# the threads of the run make the FIRST uses of objects they share (whatever a reference prepares lazily is prepared under contention)
+FRESH_CONFIG = """
+viafresh/c9cons.x = @w1/w2/c9nest()
+viafreshfn/c9cons.x = @w1/c9f
+viafreshcls/c9cons.x = @k1/k2/c9cls()
+w1/c9f.v = 'w1'
+"""
+FRESH_BOUND = {'': 'root', 'w1': 'w1'}
+FRESH_KINDS = ['ref-call', 'ref-fn', 'ref-class']
+
+
+def load_fresh():
+  import gin
+  gin.parse_config(FRESH_CONFIG)
+
+
+def in_copied_contexts(fns):
+  """Each callable runs inside its own copy of the calling thread's context, taken at the root scope (what asyncio.to_thread and
+  executors that propagate context variables do).  The thread that runs the copy is still a thread of its own: its scope is private."""
+  return [functools.partial(contextvars.copy_context().run, fn) for fn in fns]
 
 
 def expected_v(scope, table=None):
@@ -336,6 +368,8 @@ class Runner:
     """A thread started by the running thread while it is inside (nested) blocks starts at the root scope, sees the root bindings,
     nests on its own, and leaves the starter's scope alone."""
     gin, ctx = self.gin, self.ctx
+    if how == 'child-overlap':
+      return self._child_overlapping()
     res = {}
     started_in = self.m.cur
     nblocks = len(self.m.stack) - 1
@@ -368,6 +402,85 @@ class Runner:
     ctx.check(res.get('done') and 'err' not in res, 'new-thread-failed', '%s: thread started inside scope %r failed: %s' %
               (self.label, started_in, res.get('err')))
     self.check_scope('after a thread started here ran and ended')
+
+  def _child_overlapping(self):
+    """A thread started here (plainly, or running inside a copy of this thread's context as asyncio.to_thread does) stays inside a
+    list scope of its own while this thread enters and leaves further blocks; each side observes between the other's steps.  Neither
+    may see anything of the other.  The scope a copied-context thread STARTS with is not asserted (the statement does not say whether
+    a copied context carries the starter's scope): its first block is a list entry, which replaces whatever was active, and on leaving
+    that block the scope it started with must be back."""
+    gin, ctx = self.gin, self.ctx
+    started_in = self.m.cur
+    sel = len(self.shape) + len(self.m.stack)
+    via_copy = sel % 2 == 0
+    leave_first = (sel // 2) % 2 == 0      # the starter leaves its extra block before / after the thread looks again
+    own = [['c1'], ['c1', 'c2'], ['t1', 'a'], []][(sel // 4) % 4]
+    step = ['step', 's1/s2', ['x', 'y'], None][(sel // 3) % 4]
+    inside, go_on = threading.Event(), threading.Event()
+    res = {}
+    label = '%s/thread (%s) overlapping its starter inside %r' % (self.label, 'copied context' if via_copy else 'plain', '/'.join(started_in))
+
+    def kid():
+      try:
+        res['start'] = gin.current_scope()
+        rr = Runner(ctx, label, counter='thread_scope_checks')
+        with gin.config_scope(own):
+          rr.m.enter(own)
+          rr.check_scope('inside its own list scope')
+          rr.call('direct')
+          inside.set()
+          if not go_on.wait(60):
+            res['timeout'] = True
+            return
+          rr.check_scope('inside its own list scope after the starter entered%s a block' % (' and left' if leave_first else ''))
+          rr.call('direct')
+          with gin.config_scope('b'):
+            rr.m.enter('b')
+            rr.check_scope('inside a named block nested in its own list scope')
+            rr.call('direct')
+            rr.call('scoped-get')
+            rr.m.exit()
+          rr.check_scope('after leaving the nested named block')
+          rr.m.exit()
+        res['end'] = gin.current_scope()
+        res['done'] = True
+      except BaseException as e:   # noqa: reported by the starter below
+        res['err'] = repr(e)
+      finally:
+        inside.set()
+
+    target = functools.partial(contextvars.copy_context().run, kid) if via_copy else kid
+    t = threading.Thread(target=target)
+    t.start()
+    try:
+      if not inside.wait(60):
+        raise core.Inconclusive('overlapping child thread did not get inside its scope')
+      ctx.bucket('threads:overlapping-child-in-copied-context' if via_copy else 'threads:overlapping-child')
+      self.check_scope('while a thread started here is inside config_scope(%r)' % (own,))
+      self.call('direct')
+      with gin.config_scope(step):
+        self.m.enter(step)
+        self.check_scope('inside a further block %r while a thread started here is inside config_scope(%r)' % (step, own))
+        self.call('direct')
+        if not leave_first:
+          go_on.set()
+          t.join(60)
+          self.check_scope('inside a further block %r after the thread started here left its block and ended' % (step,))
+        self.m.exit()
+      self.check_scope('after leaving a further block %r while a thread started here is inside config_scope(%r)' % (step, own))
+    finally:
+      go_on.set()
+      t.join(60)
+    if t.is_alive() or res.get('timeout'):
+      raise core.Inconclusive('overlapping child thread of a sequential case did not finish')
+    if not via_copy:
+      ctx.check(res.get('start') == [], 'new-thread-not-at-root-scope', '%s: began with scope %r' % (label, res.get('start')))
+    ctx.check(res.get('done') and 'err' not in res, 'new-thread-failed', '%s: failed: %s' % (label, res.get('err')))
+    if res.get('done'):
+      ctx.check(res['end'] == res['start'], 'scope-not-restored-in-thread', '%s: began with scope %r, entered and left config_scope(%r), '
+                'then saw %r' % (label, res['start'], own, res['end']))
+    self.check_scope('after an overlapping thread started here ended')
+    self.call('direct')
 
   def call_api(self, how):
     """Calls that are not scope entries or exits leave the scope stack alone, whatever else they reset."""
@@ -624,7 +737,12 @@ def gen_thread_case(rng):
       n['arg'] = rng.choice(['t%d' % t, 't%d' % t, 'a', ['x', 'y'], 't%d/a' % t])
       prog.append(n)
     progs.append(prog)
-  return {'kind': 'threads', 'progs': progs, 'seed': rng.randrange(1 << 30), 'child': rng.random() < 0.5}
+  case = {'kind': 'threads', 'progs': progs, 'seed': rng.randrange(1 << 30), 'child': rng.random() < 0.5}
+  # first uses of freshly parsed shared references: the same kinds in every thread, each thread at the start or the end of its program
+  frng = random.Random(case['seed'] ^ 0x5eed)
+  kinds = frng.sample(FRESH_KINDS, frng.choice([1, 1, 2]))
+  case['fresh'] = [[frng.choice(['start', 'start', 'end']), kinds] for _ in range(nt)]
+  return case
 
 
 def iter_cases(ctx, rng, n):
@@ -650,13 +768,57 @@ def run_seq(ctx, case):
   ctx.sample({'kind': 'seq', 'prog': case['prog']}, cap=2)
 
 
-def thread_fn(ctx, prog, label, child):
+def use_fresh(ctx, r, label, kind):
+  """Use a scoped reference of FRESH_CONFIG (for a real thread of a run: possibly the first use ever of that object, possibly at the
+  same time as another thread's).  A scoped reference runs its configurable under exactly the reference's scope, with that scope's
+  bindings, in whichever thread and at whatever moment it is used."""
   import gin
+  me = threading.current_thread().name
+  ctx.bucket('threads:first-use-of-shared-reference')
+  ctx.bucket('threads:first-use:' + kind)
+  ctx.count('thread_scope_checks')
+  mark = probes.RECORDER.mark()
+  if kind == 'ref-call':
+    with gin.config_scope(['viafresh']):
+      got = _S['cons']()
+    ctx.check(got == (['w1', 'w2'], ['w1', 'w2', 'inner'], ['w1', 'w2']), 'shared-reference-ran-outside-its-scope',
+              '%s: evaluated reference @w1/w2/c9nest() (new since the last parse, shared with other threads) ran under '
+              '(outer, inner, after) = %r' % (label, got))
+    pid, exp_scope, table, what = _S['p'].pid, ['w1', 'w2', 'inner'], FRESH_BOUND, 'probe called inside @w1/w2/c9nest()'
+  elif kind == 'ref-fn':
+    with gin.config_scope(['viafreshfn']):
+      f = _S['cons']()
+    with gin.config_scope('t0'):
+      f()
+    pid, exp_scope, table, what = _S['p'].pid, ['w1'], FRESH_BOUND, 'the callable of reference @w1/c9f called under t0'
+  else:
+    with gin.config_scope(['viafreshcls']):
+      inst = _S['cons']()
+    ctx.check(isinstance(inst, _S['rawcls']), 'scoped-class-instance', '%s: reference @k1/k2/c9cls() built %r' % (label, type(inst)))
+    pid, exp_scope, table, what = 'c9cls', ['k1', 'k2'], CLS_BOUND, 'constructor called by reference @k1/k2/c9cls()'
+  recs = [x for x in probes.RECORDER.since(mark, pid) if x.thread == me]
+  if ctx.check(len(recs) == 1, 'probe-run-count', '%s: %s ran %d times' % (label, what, len(recs))):
+    ctx.check(list(recs[0].scope) == exp_scope, 'shared-reference-ran-outside-its-scope', '%s: %s (reference new since the last parse, '
+              'shared with other threads) saw scope %r expected %r' % (label, what, recs[0].scope, exp_scope))
+    ctx.check(recs[0].received['v'] == expected_v(exp_scope, table), 'shared-reference-got-other-scopes-bindings',
+              '%s: %s received v=%r expected %r' % (label, what, recs[0].received['v'], expected_v(exp_scope, table)))
+  r.check_scope('after using a fresh shared reference (%s)' % kind)
+
+
+def thread_fn(ctx, prog, label, child, fresh=None):
+  import gin
+  fresh_at, fresh_kinds = fresh or ('start', [])
 
   def fn():
     r = Runner(ctx, label, counter='thread_scope_checks')
     r.check_scope('thread start')
+    if fresh_at == 'start':
+      for kind in fresh_kinds:
+        use_fresh(ctx, r, label, kind)
     r.run_program(prog)
+    if fresh_at != 'start':
+      for kind in fresh_kinds:
+        use_fresh(ctx, r, label, kind)
     # scoped callables shared by all threads: one reference object and one get_configurable() result
     shared = _S.get('shared_fn')
     for k in range(2):
@@ -708,15 +870,28 @@ def run_threads(ctx, case):
   s = _S['sched']
   rng = random.Random(case['seed'])
   nt = len(case['progs'])
+  fresh = case.get('fresh') or [None] * nt
+  load_fresh()
   # warm-up, sequentially
   for i in range(nt):
-    thread_fn(ctx, case['progs'][i], 'warm%d' % i, False)()
+    thread_fn(ctx, case['progs'][i], 'warm%d' % i, False, fresh[i])()
   undo = s.swap_locks(gc)
   _S['shared_fn'] = gin.get_configurable('h1/h2/c9nest')
   ctx.bucket('threads:shared-scoped-callable')
 
+  nruns = [0]
+
   def one(policy, label):
-    fns = [thread_fn(ctx, case['progs'][i], '%s t%d' % (label, i), False) for i in range(nt)]
+    nruns[0] += 1
+    copied = nruns[0] % 2 == 0
+    if copied:
+      label += ' (threads in copied contexts)'
+    load_fresh()      # new reference objects: this run's threads make their first uses
+    fns = [thread_fn(ctx, case['progs'][i], '%s t%d' % (label, i), False, fresh[i]) for i in range(nt)]
+    if copied:
+      # the main thread is at the root scope and has used scopes and configurables (warm-up) before its context is copied
+      fns = in_copied_contexts(fns)
+      ctx.bucket('threads:in-copied-context')
     res = s.run(fns, policy, timeout=120.0)
     if res['timed_out'] or res['aborted']:
       raise core.Inconclusive('scheduler run timed out / aborted (%s)' % label)
@@ -753,7 +928,13 @@ def run_threads(ctx, case):
     sched.Scheduler.restore_locks(undo)
   for r in range(ctx.params['free_runs']):
     ctx.bucket('threads:free')
-    fns = [thread_fn(ctx, case['progs'][i], 'free#%d t%d' % (r, i), case['child'] and i == 0) for i in range(nt)]
+    load_fresh()
+    copied = r % 2 == 1
+    fns = [thread_fn(ctx, case['progs'][i], 'free#%d%s t%d' % (r, ' (threads in copied contexts)' if copied else '', i),
+                     case['child'] and i == 0, fresh[i]) for i in range(nt)]
+    if copied:
+      fns = in_copied_contexts(fns)
+      ctx.bucket('threads:free-in-copied-context')
     res = sched.free_run(fns)
     if res['timed_out']:
       raise core.Inconclusive('free-running threads timed out')
@@ -805,7 +986,8 @@ def finish(ctx):
 
 LEVEL_TEXT = ('Runtime monitor: a per-thread scope-stack model is compared with current_scope()/current_scope_str(), with what every '
               'probe saw and received, and with the stack depth after every entry, exit and exception; thread programs run under a '
-              'deterministic LINE-granularity scheduler (random, PCT, sampled single-preemption) and free-running; thorough enumerates all '
+              'deterministic LINE-granularity scheduler (random, PCT, sampled single-preemption) and free-running, half of the runs with every thread '
+              'inside a copy of the main thread\'s context, all of them making the first uses of freshly parsed shared references; thorough enumerates all '
               'entry chains of depth<=3 over a 9-kind alphabet with every exit/catch placement.')
 LEVEL_NOTE = 'Trusted: the 20-line scope model, vf/sched.py. Callers mutating the list passed to config_scope are out of scope (DESIGN X).'
 TECHNIQUE = 'runtime reference-model monitor per thread + deterministic sys.monitoring schedule exploration + exhaustive small-scope programs'
